@@ -53,8 +53,39 @@ pub enum AuthFault {
     WrongKey,
     FlipNonce,
     FlipCiphertext,
-    /// authenticator computed over different associated data (a header byte changed afterwards)
+    /// authenticator computed over different associated data (one byte of it differs)
     AadMismatch,
+    /// well-shaped field, random tag and ciphertext
+    Garbage,
+    /// the last word of tag||ciphertext is missing
+    Truncated,
+}
+
+impl AuthFault {
+    pub fn random(p: &mut dyn Pick) -> AuthFault {
+        match p.below("lay.auth_fault", 9) {
+            0..=2 => AuthFault::None,
+            3 => AuthFault::WrongKey,
+            4 => AuthFault::FlipNonce,
+            5 => AuthFault::FlipCiphertext,
+            6 => AuthFault::AadMismatch,
+            7 => AuthFault::Garbage,
+            _ => AuthFault::Truncated,
+        }
+    }
+}
+
+/// A further NTS authenticator field besides the main one.
+#[derive(Clone, Debug)]
+pub struct MoreAuth {
+    /// emitted before the main authenticator (then `between` follows it), else after (then `between` precedes it)
+    pub before_main: bool,
+    pub fault: AuthFault,
+    /// fields between this authenticator and the main one: (kind, len); kind 0 = the presented cookie
+    /// again, 1 = placeholder, 2 = the request's unique identifier again, 3 = unknown, 4 = random cookie
+    pub between: Vec<(u8, usize)>,
+    /// fields inside this authenticator's ciphertext (same encoding as `Layout::enc`)
+    pub enc: Vec<(u8, usize)>,
 }
 
 #[derive(Clone, Debug)]
@@ -76,6 +107,8 @@ pub struct Layout {
     pub placeholder_abs: Option<usize>,
     pub trailing_untrusted: usize,
     pub fault: AuthFault,
+    /// additional authenticator fields (RFC 8915: the packet is authentic only if every one verifies)
+    pub more_auths: Vec<MoreAuth>,
     pub nonce_len: usize,
     /// zero padding after the ciphertext inside the authenticator field
     pub auth_pad: usize,
@@ -98,6 +131,7 @@ impl Layout {
             placeholder_abs: None,
             trailing_untrusted: 0,
             fault: AuthFault::None,
+            more_auths: vec![],
             nonce_len: 16,
             auth_pad: 0,
             uid_len: 32,
@@ -137,13 +171,23 @@ impl Layout {
             l.nonce_len = [16usize, 16, 16, 16, 12, 15, 17, 24, 32][p.below("lay.nonce_len", 9) as usize];
             if allow_faults {
                 l.second_cookie = p.odds("lay.second_cookie", 1, 12);
-                l.fault = match p.below("lay.fault", 14) {
+                l.fault = match p.below("lay.fault", 16) {
                     10 => AuthFault::WrongKey,
                     11 => AuthFault::FlipNonce,
                     12 => AuthFault::FlipCiphertext,
                     13 => AuthFault::AadMismatch,
+                    14 => AuthFault::Garbage,
+                    15 => AuthFault::Truncated,
                     _ => AuthFault::None,
                 };
+                // several authenticator fields: valid / failing in every order, with fields in between
+                let n_more = [0usize, 0, 0, 0, 1, 1, 2, 3][p.below("lay.more_auths", 8) as usize];
+                for _ in 0..n_more {
+                    let n_between = p.below("lay.ma_between", 4) as usize;
+                    let between = (0..n_between).map(|_| (p.below("lay.ma_kind", 5) as u8, 4 * p.below("lay.ma_len", 12) as usize)).collect();
+                    let enc = if p.below("lay.ma_enc", 3) == 2 { vec![(p.below("lay.enc_kind", 4) as u8, 4 * p.below("lay.ma_len", 12) as usize)] } else { vec![] };
+                    l.more_auths.push(MoreAuth { before_main: p.below("lay.ma_before", 2) == 1, fault: AuthFault::random(p), between, enc });
+                }
             }
         }
         l
@@ -163,6 +207,8 @@ pub struct Built {
     pub auth_genuine: bool,
     /// key the authenticator was computed under (None: the tag / associated data was broken afterwards)
     pub auth_key: Option<Vec<u8>>,
+    /// number of authenticator fields the builder emitted
+    pub n_auth: usize,
     pub nonce_len: usize,
     pub uid: Vec<u8>,
     pub origin: [u8; 8],
@@ -184,6 +230,85 @@ pub fn build(p: &mut dyn Pick, keys: &SessionKeys, cookie: &[u8], l: &Layout, wr
     } else {
         build_own(p, keys, cookie, l, wrong_key)
     }
+}
+
+
+/// serialise fields for the inside of a ciphertext; cookie / placeholder body lengths (as the decoder
+/// will see them) are appended to `lens`
+fn enc_plaintext(p: &mut dyn Pick, enc: &[(u8, usize)], cookie: &[u8], v5: bool, lens: &mut Vec<usize>) -> Vec<u8> {
+    let mut pt = vec![];
+    for (kind, len) in enc {
+        let n = if *len == usize::MAX { cookie.len() } else { *len };
+        let before = pt.len();
+        match kind {
+            0 => {
+                wire::put_ef(&mut pt, T_COOKIE, &p.bytes("req.enc_cookie", n), 0, v5);
+                lens.push(wire::be16(&pt, before + 2) - 4);
+            }
+            1 => {
+                wire::put_ef(&mut pt, T_PLACEHOLDER, &vec![0u8; n], 0, v5);
+                lens.push(wire::be16(&pt, before + 2) - 4);
+            }
+            2 => wire::put_ef(&mut pt, T_UID, &p.bytes("req.enc_uid", n), 0, v5),
+            _ => wire::put_ef(&mut pt, unknown_type(p), &p.bytes("req.enc", n), 0, v5),
+        }
+    }
+    pt
+}
+
+/// unencrypted fields between two authenticators
+fn between_fields(p: &mut dyn Pick, out: &mut Vec<u8>, fields: &[(u8, usize)], cookie: &[u8], uid: &[u8], v5: bool, lens: &mut Vec<usize>) {
+    for (kind, len) in fields {
+        let before = out.len();
+        match kind {
+            0 => {
+                wire::put_ef(out, T_COOKIE, cookie, 16, v5);
+                lens.push(wire::be16(out, before + 2) - 4);
+            }
+            1 => {
+                wire::put_ef(out, T_PLACEHOLDER, &vec![0u8; *len], 16, v5);
+                lens.push(wire::be16(out, before + 2) - 4);
+            }
+            2 => wire::put_ef(out, T_UID, uid, 16, v5),
+            3 => wire::put_ef(out, unknown_type(p), &p.bytes("req.extra", *len), 16, v5),
+            _ => {
+                wire::put_ef(out, T_COOKIE, &p.bytes("req.enc_cookie", *len), 16, v5);
+                lens.push(wire::be16(out, before + 2) - 4);
+            }
+        }
+    }
+}
+
+/// Append one authenticator field over everything already in `out`, broken in the way `fault` says.
+#[allow(clippy::too_many_arguments)]
+pub fn emit_auth(p: &mut dyn Pick, out: &mut Vec<u8>, alg: u16, good_key: &[u8], wrong_key: &[u8], fault: AuthFault, nonce_len: usize, pt: &[u8], pad: usize) -> bool {
+    let key = if fault == AuthFault::WrongKey { wrong_key } else { good_key };
+    let mut nonce = p.bytes("req.nonce", nonce_len);
+    let mut aad = out.clone();
+    if fault == AuthFault::AadMismatch && aad.len() >= 12 {
+        // one byte of the associated data (outside version / mode bits) differs from what is sent
+        let i = 4 + p.below("req.flip_at", 8) as usize;
+        aad[i] ^= 0x10;
+    }
+    let Some(mut ct) = ntp_proto::verif::packet::siv_encrypt(alg, key, &nonce, &aad, pt) else {
+        return false;
+    };
+    match fault {
+        AuthFault::Garbage => ct = p.bytes("req.garbage", ct.len()),
+        AuthFault::Truncated => ct.truncate(ct.len().saturating_sub(4)),
+        AuthFault::FlipNonce if nonce_len > 0 => {
+            let i = p.below("req.flip_at", nonce_len as u64) as usize;
+            nonce[i] ^= 1 << p.below("req.flip_bit", 8);
+        }
+        AuthFault::FlipNonce => ct[0] ^= 1,
+        AuthFault::FlipCiphertext => {
+            let i = p.below("req.flip_at", ct.len() as u64) as usize;
+            ct[i] ^= 1 << p.below("req.flip_bit", 8);
+        }
+        _ => {}
+    }
+    wire::put_auth_raw(out, &nonce, &ct, pad);
+    true
 }
 
 fn build_real(p: &mut dyn Pick, keys: &SessionKeys, cookie: &[u8], l: &Layout) -> Option<Built> {
@@ -226,6 +351,7 @@ fn build_real(p: &mut dyn Pick, keys: &SessionKeys, cookie: &[u8], l: &Layout) -
         cookies_before_auth: 1,
         auth_genuine: true,
         auth_key: Some(keys.c2s.clone()),
+        n_auth: 1,
         nonce_len: 16,
         uid,
         origin,
@@ -276,54 +402,30 @@ fn build_own(p: &mut dyn Pick, keys: &SessionKeys, cookie: &[u8], l: &Layout, wr
     }
     // fields inside the ciphertext (minimum size 0 there, RFC 8915 5.5)
     let mut pt = vec![];
-    for (kind, len) in &l.enc {
-        let n = if *len == usize::MAX { cookie.len() } else { *len };
-        let before = pt.len();
-        match kind {
-            0 => {
-                wire::put_ef(&mut pt, T_COOKIE, &p.bytes("req.enc_cookie", n), 0, v5);
-                lens.push(wire::be16(&pt, before + 2) - 4);
-            }
-            1 => {
-                wire::put_ef(&mut pt, T_PLACEHOLDER, &vec![0u8; n], 0, v5);
-                lens.push(wire::be16(&pt, before + 2) - 4);
-            }
-            2 => wire::put_ef(&mut pt, T_UID, &p.bytes("req.enc_uid", n), 0, v5),
-            _ => wire::put_ef(&mut pt, unknown_type(p), &p.bytes("req.enc", n), 0, v5),
+    pt.extend_from_slice(&enc_plaintext(p, &l.enc, cookie, v5, &mut lens));
+    let mut n_auth = 0;
+    // authenticators in front of the main one, each followed by its `between` fields
+    for m in l.more_auths.iter().filter(|m| m.before_main) {
+        let mpt = enc_plaintext(p, &m.enc, cookie, v5, &mut lens);
+        if !emit_auth(p, &mut out, keys.alg, &keys.c2s, wrong_key, m.fault, 16, &mpt, 0) {
+            return None;
         }
+        n_auth += 1;
+        between_fields(p, &mut out, &m.between, cookie, &uid, v5, &mut lens);
     }
-    let nonce = p.bytes("req.nonce", l.nonce_len);
-    let mut auth_genuine = true;
-    let key: &[u8] = if l.fault == AuthFault::WrongKey {
-        auth_genuine = false;
-        wrong_key
-    } else {
-        &keys.c2s
-    };
-    let auth_at = out.len();
-    if !wire::put_auth_padded(&mut out, keys.alg, key, &nonce, &pt, l.auth_pad) {
+    let auth_genuine = l.fault == AuthFault::None;
+    let key: &[u8] = if l.fault == AuthFault::WrongKey { wrong_key } else { &keys.c2s };
+    if !emit_auth(p, &mut out, keys.alg, &keys.c2s, wrong_key, l.fault, l.nonce_len, &pt, l.auth_pad) {
         return None;
     }
-    match l.fault {
-        AuthFault::FlipNonce if l.nonce_len > 0 => {
-            let i = auth_at + 8 + p.below("req.flip_at", l.nonce_len as u64) as usize;
-            out[i] ^= 1 << p.below("req.flip_bit", 8);
-            auth_genuine = false;
+    n_auth += 1;
+    for m in l.more_auths.iter().filter(|m| !m.before_main) {
+        between_fields(p, &mut out, &m.between, cookie, &uid, v5, &mut lens);
+        let mpt = enc_plaintext(p, &m.enc, cookie, v5, &mut lens);
+        if !emit_auth(p, &mut out, keys.alg, &keys.c2s, wrong_key, m.fault, 16, &mpt, 0) {
+            return None;
         }
-        AuthFault::FlipCiphertext => {
-            let ct0 = auth_at + 8 + wire::up4(l.nonce_len);
-            let ctl = pt.len() + 16;
-            let i = ct0 + p.below("req.flip_at", ctl as u64) as usize;
-            out[i] ^= 1 << p.below("req.flip_bit", 8);
-            auth_genuine = false;
-        }
-        AuthFault::AadMismatch => {
-            // a header byte outside version/mode, changed after the tag was computed
-            let i = 4 + p.below("req.flip_at", 8) as usize;
-            out[i] ^= 0x10;
-            auth_genuine = false;
-        }
-        _ => {}
+        n_auth += 1;
     }
     let n_tr = l.trailing_untrusted;
     for i in 0..n_tr {
@@ -339,6 +441,7 @@ fn build_own(p: &mut dyn Pick, keys: &SessionKeys, cookie: &[u8], l: &Layout, wr
         cookies_before_auth,
         auth_genuine,
         auth_key: if l.fault == AuthFault::None || l.fault == AuthFault::WrongKey { Some(key.to_vec()) } else { None },
+        n_auth,
         nonce_len: l.nonce_len,
         uid,
         origin,
